@@ -18,11 +18,21 @@ type Case struct {
 	KVs     []tbl.KV    `json:"kvs"`
 	W       tbl.WOpts   `json:"w"`
 	Readers []tbl.ROpts `json:"readers"`
+	// Storm > 0: a lookup storm instead of KVs: a table of Storm generated keys (4-byte big-endian numbers, tiny values)
+	// and one long-lived reader that looks up every key (per-reader lookup state, such as the disk index's cache of
+	// probed offsets, only fills up after tens of thousands of distinct probes)
+	Storm int `json:"storm,omitempty"`
 }
 
 func Gen() *rapid.Generator[Case] {
 	return rapid.Custom(func(t *rapid.T) Case {
 		var c Case
+		if rapid.IntRange(0, 39).Draw(t, "storm") == 0 {
+			c.Storm = rapid.SampledFrom([]int{3000, 40000}).Draw(t, "stormKeys")
+			c.W = tbl.WOpts{BloomN: uint64(c.Storm), BloomP: 0.01, WriteBuf: 4096}
+			c.Readers = []tbl.ROpts{{Loader: rapid.SampledFrom([]string{"disk", "disk", "slice", "skiplist"}).Draw(t, "loader"), ReadBuf: 4096, SkipLoad: true}}
+			return c
+		}
 		maxKeys := 60
 		if h.Thorough() {
 			maxKeys = 400
@@ -98,6 +108,9 @@ func thin(ps [][]byte, max int) [][]byte {
 func Prop(c Case, x *h.Ctx) *h.Violation {
 	dir, done := h.Scratch("c03")
 	defer done()
+	if c.Storm > 0 {
+		return storm(c, x, dir)
+	}
 	if err := tbl.Write(dir, c.KVs, c.W); err != nil {
 		return h.V("sstable/write-err", "writing %d ascending keys failed: %v", len(c.KVs), err)
 	}
@@ -244,5 +257,55 @@ func Prop(c Case, x *h.Ctx) *h.Violation {
 		x.Label("last-entry-dominates")
 	}
 	x.SetNonTrivial(len(keys) >= 2 && absentProbe && strictInside)
+	return nil
+}
+
+// storm: every key of a large table is looked up through one reader, twice (ascending, then with a stride).
+func storm(c Case, x *h.Ctx, dir string) *h.Violation {
+	kvs := make([]tbl.KV, c.Storm)
+	for i := range kvs {
+		k := []byte{byte(i >> 21), byte(i >> 13), byte(i >> 5), byte(i<<3) | 1}
+		kvs[i] = tbl.KV{K: k, V: gen.Blob{Lit: []byte{byte(i), byte(i >> 8)}}}
+	}
+	if err := tbl.Write(dir, kvs, c.W); err != nil {
+		return h.V("sstable/write-err", "writing %d ascending keys failed: %v", len(kvs), err)
+	}
+	ro := c.Readers[0]
+	fp := "sstable/" + ro.Loader + "/storm"
+	r, err := tbl.Open(dir, ro)
+	if err != nil {
+		return h.V(fp+"/open", "open failed: %v", err)
+	}
+	defer r.Close()
+	x.Label("lookup-storm")
+	x.Label("loader=" + ro.Loader)
+	x.Labelf("storm-keys=%d", c.Storm)
+	x.SetNonTrivial(true)
+	look := func(i int) *h.Violation {
+		k := kvs[i].K
+		ok, err := r.Contains(k)
+		if err != nil || !ok {
+			return h.V(fp+"/contains", "lookup %d of one reader: Contains(%x)=(%v,%v) for a written key", i, k, ok, err)
+		}
+		v, err := r.Get(k)
+		if err != nil || !bytes.Equal(v, kvs[i].V.Lit) {
+			return h.V(fp+"/get", "lookup %d of one reader: Get(%x)=(%x,%v) want %x", i, k, v, err, kvs[i].V.Lit)
+		}
+		absent := []byte{k[0], k[1], k[2], k[3] &^ 1}
+		if ok, err := r.Contains(absent); err != nil || ok {
+			return h.V(fp+"/contains", "lookup %d of one reader: Contains(%x)=(%v,%v) for a key that was not written", i, absent, ok, err)
+		}
+		return nil
+	}
+	for i := range kvs {
+		if v := look(i); v != nil {
+			return v
+		}
+	}
+	for i := 0; i < len(kvs); i += 7 {
+		if v := look((i * 31) % len(kvs)); v != nil {
+			return v
+		}
+	}
 	return nil
 }
